@@ -124,7 +124,8 @@ func (s *SourceFileSet) file(p Pos) *SourceFile {
 
 		// f.base <= int(p) by definition of searchFiles
 		if int(p) <= f.Base+f.Size {
-			s.LastFile = f // race is ok - s.last is only a cache
+			// do not update s.LastFile here: position lookups run
+			// concurrently in clones of a compiled script
 			return f
 		}
 	}
